@@ -96,6 +96,8 @@ impl TransformerContext {
 //@       let b0 = own_bbox(target_of(*self, *el)->Some_0)->Some_0->Some_0;
 //@       let dx = off(el.attrs@, "x"@)->Some_0; let dy = off(el.attrs@, "y"@)->Some_0;
 //@       r->Ok_0 is Some && bx(r->Ok_0->Some_0) == (val(b0.x1) + dx, val(b0.y1) + dy, val(b0.x2) + dx, val(b0.y2) + dy) })     @@C08.use.translated
+//@ - (el.name@ == "use"@ || el.name@ == "reuse"@) && target_of(*self, *el) is Some && own_bbox(target_of(*self, *el)->Some_0) is Some && own_bbox(target_of(*self, *el)->Some_0)->Some_0 is Some
+//@     && ((el.attrs@.dom().contains("x"@) && strp_spec(el.attrs@["x"@]) is None) || (el.attrs@.dom().contains("y"@) && strp_spec(el.attrs@["y"@]) is None)) ==> r is Err     @@C10.use.unresolved_offset_is_error @@C08.use.unresolved_offset_is_error
 //@ - r is Ok && !(el.name@ == "use"@ || el.name@ == "reuse"@) && !el.attrs@.dom().contains("clip-path"@)
 //@     && target_of(*self, *el) is Some ==> own_bbox(target_of(*self, *el)->Some_0) == Some(r->Ok_0)     @@C08.plain.own_box
 //@ decreases
